@@ -87,9 +87,9 @@ def run (c : Case) : String :=
     let body : Option String :=
       match c.getD "op" "?" with
       | "Zip" => some (plain (zipM n) renderTuple scripts order cut
-          ++ s!" spec={renderTrace renderTuple (Spec.zip n arr)} known={knownList [("zipCompleteUnsub", Known.zipCompleteUnsub n [] 0 arr)]}")
+          ++ s!" spec={renderTrace renderTuple (Spec.zip n arr)} known=-")
       | "ZipAll" => some (plain (zipAllM n outer) renderSlice scripts order cut
-          ++ s!" spec={renderTrace renderSlice (Spec.zipAll n outer arr)} known={knownList [("zipAllOuterCompletes", Known.zipAllOuterCompletes n outer)]}")
+          ++ s!" spec={renderTrace renderSlice (Spec.zipAll n outer arr)} known=-")
       | "CombineLatest" => some (plain (combineLatestM n) renderTuple scripts order cut
           ++ s!" spec={renderTrace renderTuple (Spec.combineLatest n arr)} known=-")
       | "CombineLatestAll" => some (plain (combineLatestAllM n outer) renderSlice scripts order cut
@@ -97,7 +97,7 @@ def run (c : Case) : String :=
       | "ConcatAll" =>
         let specSubs := (List.range n).map (fun j => if Spec.concatSubscribed n arr j then "1" else "0")
         some (plain (concatM n outer) renderInt scripts order cut
-          ++ s!" spec={renderTrace renderInt (Spec.concat n outer arr)} specsubs={joinOrDash specSubs} known={knownList [("concatInnerError", Known.concatInnerError n arr)]}")
+          ++ s!" spec={renderTrace renderInt (Spec.concat n outer arr)} specsubs={joinOrDash specSubs} known=-")
       | "BufferWhen" => some (plain bufferWhenM renderSlice scripts order cut
           ++ s!" spec={renderTrace renderSlice (Spec.bufferWhen arr)} known=-")
       | "WindowWhen" =>
@@ -109,7 +109,7 @@ def run (c : Case) : String :=
           let delay := ((c.getD "delay" "0").toNat?).getD 0
           let r := runC (groupByM key delay) scripts order cut
           result 1 r (renderTrace renderInner (viewOut (r.m.groups.map (·.2)) r.out)) toString
-            ++ s!" spec={renderTrace renderInner (Spec.groupBy key arr)} known={knownList [("groupByLate", Known.groupByLate delay arr), ("groupByErrorCompletesGroups", Known.groupByErrorCompletesGroups arr)]}")
+            ++ s!" spec={renderTrace renderInner (Spec.groupBy key arr)} known={knownList [("groupByLate", Known.groupByLate delay arr)]}")
       | _ => none
     -- the model-only fields are printed on request, so that plain result lines are equal on both sides
     let strip (b : String) : String :=
